@@ -131,29 +131,45 @@ class Ctx:
         for site, vs in sorted(known.items()):
             rec = findings.match(self.prop, site)
             print(f"KNOWN-FINDING: property={self.prop} {site} ({len(vs)} case(s) on this run) -- {rec.get('description', '')[:160]}")
-        # replay files for fresh violations (one per distinct site+case; capped)
+        # replay files for fresh violations: one per distinct site (simplest case first)
         lines, unreproduced = [], 0
         rdir = os.path.join(env.HOME, 'replays', self.prop)
         seen_sites = {}
         for v in fresh:
             seen_sites.setdefault(v['site'], []).append(v)
         reported = []
+        paths = []
         for site, vs in sorted(seen_sites.items()):
-            v = vs[0]   # simplest-first ordering => first is the smallest
+            v = min(vs, key=lambda x: len(json.dumps(x['case'])))
             os.makedirs(rdir, exist_ok=True)
-            path = os.path.join(rdir, f"{site.replace('/', '_')[:80]}-{stable_hash(v['case'], 10)}.json")
+            path = os.path.join(rdir, f"{site.replace('/', '_')[:100]}-{stable_hash(v['case'], 10)}.json")
             with open(path, 'w') as fh:
                 json.dump(dict(property=self.prop, site=site, case=v['case'], detail=v['detail'],
                                n_cases_with_this_site=len(vs), tier=self.tier, seed=self.seed), fh, indent=1)
-            ok = True
-            if replay_verify and os.environ.get('VERIF_NO_REPLAY_VERIFY') != '1':
-                ok = _reproduces(self.prop, path)
-            if ok:
+            paths.append((site, path, len(vs)))
+        # every violation must reproduce from its replay file in a fresh process; the first VERIFY_MAX sites are
+        # re-run (in parallel); if none of those reproduces, nothing is reported (harness nondeterminism).
+        VERIFY_MAX = 6
+        verdict = {}
+        if replay_verify and os.environ.get('VERIF_NO_REPLAY_VERIFY') != '1' and paths:
+            from concurrent.futures import ThreadPoolExecutor
+            with ThreadPoolExecutor(VERIFY_MAX) as ex:
+                oks = list(ex.map(lambda sp: _reproduces(self.prop, sp[1]), paths[:VERIFY_MAX]))
+            for (site, path, n), ok in zip(paths[:VERIFY_MAX], oks):
+                verdict[path] = ok
+            if not any(oks):
+                for site, path, n in paths:
+                    verdict[path] = False
+        for site, path, n in paths:
+            if verdict.get(path, True):
                 lines.append(f'VIOLATION property={self.prop} replay={path}')
-                reported.append(dict(site=site, replay=path, n=len(vs)))
+                reported.append(dict(site=site, replay=path, n=n, replay_verified=path in verdict))
             else:
                 unreproduced += 1
                 print(f'[{self.prop}] UNREPRODUCED (not reported as violation): {site} {path}')
+        if len(lines) > 40:
+            print(f'[{self.prop}] {len(lines)} violating sites; printing the first 40 (all are in the evidence file)')
+            lines = lines[:40]
         for ln in lines:
             print(ln)
         self.write_evidence(n_fresh=len(reported), known={k: len(v) for k, v in known.items()},
